@@ -585,6 +585,74 @@ theorem hasAttr_rel {a : Expr} {attr : String}
             simp only [evaluate, hev, hlk]
             exact Rel.prim (p := .bool false) trivial
 
+theorem like_rel {a : Expr} {pat : Pattern}
+    (ih : ∀ t, compile (litEnv2 req etys ctxT) a = .ok t → Rel req.context ctxT (evaluate req es senv a) t)
+    {t : Term} (hc : compile (litEnv2 req etys ctxT) (.like a pat) = .ok t) :
+    Rel req.context ctxT (evaluate req es senv (.like a pat)) t := by
+  simp only [compile] at hc
+  cases h1 : compile (litEnv2 req etys ctxT) a with
+  | error e => simp [h1] at hc
+  | ok t1 =>
+    simp only [h1] at hc
+    cases h0 : compileLike (optionGet t1) pat with
+    | error e => simp [h0] at hc
+    | ok r0 =>
+      simp only [h0, Except.ok.injEq] at hc
+      subst hc
+      rcases (ih t1 h1).cases with ⟨p, hev, hp, rfl⟩ | ⟨err, ty, hev, rfl⟩ | ⟨hev, rfl, hck⟩
+      · rw [optionGet_some] at h0
+        cases p <;> simp [compileLike, litPrim, Term.typeOf, TermPrim.typeOf, stringLike, someOf] at h0
+        subst h0
+        rw [ifSome_some_opt (ty := .bool) rfl]
+        simp only [evaluate, hev, Value.asString]
+        exact Rel.prim (p := .bool _) trivial
+      · obtain ⟨ty', h'⟩ := ifSome_none ty r0
+        rw [h']
+        simp only [evaluate, hev]
+        exact ⟨ty', rfl⟩
+      · rw [optionGet_some] at h0
+        have := isRecord_typeOf hck.1
+        unfold compileLike at h0
+        split at h0
+        · simp_all [TermType.isRecordType]
+        · simp at h0
+
+theorem is_rel {a : Expr} {ety : EntityType}
+    (ih : ∀ t, compile (litEnv2 req etys ctxT) a = .ok t → Rel req.context ctxT (evaluate req es senv a) t)
+    {t : Term} (hc : compile (litEnv2 req etys ctxT) (.is a ety) = .ok t) :
+    Rel req.context ctxT (evaluate req es senv (.is a ety)) t := by
+  simp only [compile] at hc
+  cases h1 : compile (litEnv2 req etys ctxT) a with
+  | error e => simp [h1] at hc
+  | ok t1 =>
+    simp only [h1] at hc
+    cases h0 : compileIs (optionGet t1) ety with
+    | error e => simp [h0] at hc
+    | ok r0 =>
+      simp only [h0, Except.ok.injEq] at hc
+      subst hc
+      rcases (ih t1 h1).cases with ⟨p, hev, hp, rfl⟩ | ⟨err, ty, hev, rfl⟩ | ⟨hev, rfl, hck⟩
+      · rw [optionGet_some] at h0
+        cases p <;> simp [compileIs, litPrim, Term.typeOf, TermPrim.typeOf, someOf] at h0
+        subst h0
+        rename_i u
+        rw [ifSome_some_opt (ty := .bool) rfl]
+        simp only [evaluate, hev, Value.asEntity]
+        have : (ety == u.ty) = (u.ty == ety) := by
+          rw [Bool.eq_iff_iff, beq_iff_eq, beq_iff_eq]; exact eq_comm
+        rw [this]
+        exact Rel.prim (p := .bool _) trivial
+      · obtain ⟨ty', h'⟩ := ifSome_none ty r0
+        rw [h']
+        simp only [evaluate, hev]
+        exact ⟨ty', rfl⟩
+      · rw [optionGet_some] at h0
+        have := isRecord_typeOf hck.1
+        unfold compileIs at h0
+        split at h0
+        · simp_all [TermType.isRecordType]
+        · simp at h0
+
 /-- compile on the literal environment of `req` vs. `evaluate`, on the fragment -/
 theorem compile_rel2 (hctx : ctxT.typeOf.isRecordType = true → CtxOK req.context ctxT) {e : Expr} (hf : SFrag2 e) :
     ∀ t, compile (litEnv2 req etys ctxT) e = .ok t → Rel req.context ctxT (evaluate req es senv e) t := by
@@ -742,8 +810,78 @@ theorem compile_rel2 (hctx : ctxT.typeOf.isRecordType = true → CtxOK req.conte
   | mul _ _ iha ihb => exact fun t hc => binary_rel req es senv etys ctxT iha ihb hc
   | @getAttr a attr _ ih => exact fun t hc => getAttr_rel req es senv etys ctxT ih hc
   | @hasAttr a attr _ ih => exact fun t hc => hasAttr_rel req es senv etys ctxT ih hc
+  | @like a p _ ih => exact fun t hc => like_rel req es senv etys ctxT ih hc
+  | @is a ety _ ih => exact fun t hc => is_rel req es senv etys ctxT ih hc
 
 end
+
+/-! ### `ctxTermOf` (the `Record` arm of `Term::from_value`) builds a term satisfying `CtxOK` -/
+
+theorem termOfPrim_eq (p : Prim) : termOfPrim p = .prim (litPrim p) := by cases p <;> rfl
+
+/-- the part of "the context conforms to the flat context type `attrs`" that `CtxOK` needs: every attribute the context
+    supplies is declared and its value is a primitive (longs in the i64 range, an invariant of `Value`s built by the
+    parser / evaluator).  (Full conformance — value of the declared type, required attributes present — implies it.) -/
+def FlatConforms (ctx : List (String × Value)) (attrs : List (Attr × CtxAttrTy × Bool)) : Prop :=
+  ∀ a v, lookupKV ctx a = some v → (∃ p, v = .prim p ∧ PrimOk p) ∧ a ∈ attrs.map (·.1)
+
+theorem ctxTermOf_spec (ctx : List (String × Value))
+    (hv : ∀ a v, lookupKV ctx a = some v → ∃ p, v = .prim p ∧ PrimOk p) :
+    ∀ (attrs : List (Attr × CtxAttrTy × Bool)), ∃ t, ctxTermOf ctx attrs = some t ∧ t.isRecord = true ∧
+      (∀ a ft, recFind? t a = some ft → FieldOK (lookupKV ctx a) ft) ∧
+      (∀ a, recFind? t a = none → a ∉ attrs.map (·.1))
+  | [] => ⟨.recNil, rfl, rfl, by simp [recFind?], by simp⟩
+  | (b, ty, rq) :: rest => by
+    obtain ⟨rt, hrt, hrec, hfld, hno⟩ := ctxTermOf_spec ctx hv rest
+    have hfind : ∀ (x : Term) a, recFind? (.recCons b x rt) a = if b == a then some x else recFind? rt a := by
+      intro x a; simp [recFind?]
+    cases hl : lookupKV ctx b with
+    | none =>
+      refine ⟨.recCons b (noneOf ty.termType) rt, by simp [ctxTermOf, hrt, hl], by simpa [Term.isRecord] using hrec, ?_, ?_⟩
+      · intro a ft h
+        rw [hfind] at h
+        split at h
+        · rename_i hb
+          have : b = a := by simpa using hb
+          subst this
+          simp only [Option.some.injEq] at h
+          subst h
+          exact Or.inr ⟨hl, _, rfl⟩
+        · exact hfld a ft h
+      · intro a h
+        rw [hfind] at h
+        split at h
+        · simp at h
+        · rename_i hb
+          have hne : ¬ b = a := by simpa using hb
+          simp only [List.map_cons, List.mem_cons, not_or]
+          exact ⟨fun e => hne e.symm, hno a h⟩
+    | some v =>
+      obtain ⟨p, rfl, hp⟩ := hv b v hl
+      refine ⟨.recCons b (if rq then termOfPrim p else someOf (termOfPrim p)) rt, by simp [ctxTermOf, hrt, hl],
+        by simpa [Term.isRecord] using hrec, ?_, ?_⟩
+      · intro a ft h
+        rw [hfind] at h
+        split at h
+        · rename_i hb
+          have : b = a := by simpa using hb
+          subst this
+          simp only [Option.some.injEq] at h
+          subst h
+          refine Or.inl ⟨p, hp, hl, ?_⟩
+          cases rq
+          · right; simp [termOfPrim_eq, someOf]
+          · left; simp [termOfPrim_eq]
+        · exact hfld a ft h
+      · intro a h
+        rw [hfind] at h
+        split at h
+        · simp at h
+        · rename_i hb
+          have hne : ¬ b = a := by simpa using hb
+          simp only [List.map_cons, List.mem_cons, not_or]
+          exact ⟨fun e => hne e.symm, hno a h⟩
+
 
 theorem inFrag_sound : ∀ (e : Expr), inFrag e = true → SFrag e
   | .lit (.bool b), _ => .litBool b
@@ -845,8 +983,8 @@ theorem inFrag2_sound : ∀ (e : Expr), inFrag2 e = true → SFrag2 e
   | .slot _, h => by simp [inFrag2] at h
   | .unknown _ _, h => by simp [inFrag2] at h
   | .call _ _, h => by simp [inFrag2] at h
-  | .like _ _, h => by simp [inFrag2] at h
-  | .is _ _, h => by simp [inFrag2] at h
+  | .like a p, h => .like p (inFrag2_sound a (by simpa [inFrag2] using h))
+  | .is a ety, h => .is ety (inFrag2_sound a (by simpa [inFrag2] using h))
   | .set _, h => by simp [inFrag2] at h
   | .record _, h => by simp [inFrag2] at h
 
